@@ -167,6 +167,19 @@ int main ()
     MeanRadian<double> c (a); bad += differs (c.get_Estimate(), b.get_Estimate());      // copy construction from the assigned accumulator
     a += ED (0.25, 0.5); b += ED (0.25, 0.5); bad += differs (a.get_Estimate(), b.get_Estimate());
     O.put (bad); };
+  // oracle (grouping at scale): an accumulator merged with itself k times (`a += a`, or through a copy) holds 2^k copies of
+  // its entries: the mean direction / value is unchanged and the variance is divided by 2^k, exactly (powers of two).
+  // Output: number of violated relations
+  OP("o.c12.doubling") { unsigned k = A.nat(); unsigned via = A.nat(); unsigned n = A.nat(); MeanRadian<double> a; MeanEstimate<double> m; bool first = true;
+    for (unsigned i=0;i<n;i++) { ED d=rdD(A); if (first) { a = d; first = false; } else a += d; m += d; }
+    ED a0 = a.get_Estimate(), s0 = a.get_sin(), c0 = a.get_cos(), m0 = m.get_Estimate();
+    for (unsigned i=0;i<k;i++) { if (via) { MeanRadian<double> b = a; a += b; MeanEstimate<double> mb = m; m += mb; } else { a += a; m += m; } }
+    ED a1 = a.get_Estimate(), s1 = a.get_sin(), c1 = a.get_cos(), m1 = m.get_Estimate(); double f = std::ldexp (1.0, -(int) k);
+    int bad = 0; auto same = [] (double x, double y) { return memcmp (&x, &y, 8) == 0 || (x != x && y != y) || (x == 0 && y == 0); };
+    if (!same (a1.val, a0.val)) bad++; if (!same (m1.val, m0.val)) bad++; if (!same (s1.val, s0.val)) bad++; if (!same (c1.val, c0.val)) bad++;
+    if (!same (m1.var, m0.var * f)) bad++; if (!same (s1.var, s0.var * f)) bad++; if (!same (c1.var, c0.var * f)) bad++;
+    if (a0.var > 0 && !(std::fabs (a1.var - a0.var * f) <= 1e-12 * a0.var * f)) bad++;
+    O.put (bad); };
   // oracle: direction of the circular mean against the weighted vector sum (weights 1/var); prints |difference| mod 2 pi
   OP("o.c12.direction") { unsigned n=A.nat(); MeanRadian<double> m; bool first = true; long double sx = 0, sy = 0;
     for (unsigned i=0;i<n;i++) { ED d=rdD(A); if (first) { m = d; first = false; } else m += d;
